@@ -245,6 +245,41 @@ func runC01(c *Ctx) {
 	c.Rule("C01.R5", "EXHAUSTIVE", "the block hash (and so every vote and the seal) covers all header fields except Validator, Signature and Certificate; CopyHeader copies the whole struct; the quorum fractions are 0.685 and 0.585")
 	c.Min(4)
 	c01R5(c, w)
+
+	// ------------------------------------------------------------ R6
+	c.Rule("C01.R6", "FLOWS-TO", "a sortition proof counts only for the step and round index it was issued for: the message every credential is verified against (MakeM) binds seed, step and round index in disjoint constant ranges covering the whole buffer, and VrfVerifySortition / VrfVerifyPriority build it from their own seed, role and index parameters")
+	c.Min(3)
+	makeM := w.Fn(uconPkg, "", "MakeM")
+	c.sawFunc(fname(makeM))
+	okM, whyM := messageBinds(makeM)
+	c.sites++
+	c.Check(fname(makeM)+"#binds-seed-step-index", makeM.Pos(), okM, ifelse(okM, "seed, step and index occupy disjoint ranges covering the message", "the message a vote's sortition proof is verified against does not bind seed, step and round index ("+whyM+"): wrong-step or wrong-index credentials are counted towards the quorum"))
+	for _, fn := range []*ssa.Function{w.Fn(uconPkg, "", "VrfVerifySortition"), w.Fn(uconPkg, "", "VrfVerifyPriority")} {
+		c.sites++
+		calls := callsTo(fn, makeM.Object().(*types.Func))
+		var bad []string
+		if len(calls) != 1 {
+			bad = append(bad, "no single MakeM call")
+		} else {
+			args := callArgs(calls[0])
+			for i, a := range args {
+				if i >= len(makeM.Params) {
+					break
+				}
+				want := makeM.Params[i].Name()
+				okArg := false
+				for _, p := range fn.Params {
+					if p.Name() == want && stripConv(a) == ssa.Value(p) {
+						okArg = true
+					}
+				}
+				if !okArg {
+					bad = append(bad, "MakeM argument "+want+" is not the verifier's own "+want)
+				}
+			}
+		}
+		c.Check(fname(fn)+"#verifies-against-own-seed-step-index", fn.Pos(), len(bad) == 0, ifelse(len(bad) == 0, "MakeM(seed, role, index) of the verifier's own parameters", strings.Join(bad, "; ")+": the credential is not verified for the claimed step / round index"))
+	}
 }
 
 func ifelse(b bool, x, y string) string {
